@@ -1,6 +1,6 @@
 (** One entry point for the correspondence: checker id -> case -> verdict. *)
 From Coq Require Import ZArith List Bool.
-From Comet Require Import Base.Parse Check.C19 Check.C18.
+From Comet Require Import Base.Parse Check.C19 Check.C18 Check.VecHist.
 Import ListNotations.
 Open Scope Z_scope.
 
@@ -18,6 +18,7 @@ Definition dispatch (id : Z) (s : list Z) : list Z :=
   else if id =? 1804 then run_P chk_helpers s
   else if id =? 1805 then run_P chk_cmp32 s
   else if id =? 1806 then run_P chk_triangle s
+  else if id =? 200 then run_P chk_vechist s
   else [8].
 
 (** used by cases.v: the list of case numbers whose verdict is not OK *)
@@ -27,7 +28,7 @@ Fixpoint mismatches_from (n : Z) (cases : list (Z * list Z)) : list (Z * list Z)
   | (id, s) :: t =>
       let v := dispatch id s in
       match v with
-      | [0] => mismatches_from (n + 1) t
+      | 0 :: _ => mismatches_from (n + 1) t
       | _ => (n, v) :: mismatches_from (n + 1) t
       end
   end.
